@@ -22,6 +22,17 @@
 (* the exhaustive run covers histories of every length.  The Go harness    *)
 (* keeps the absolute hour.                                                *)
 (*                                                                         *)
+(* ABSOLUTE CLOCK.  Because hours are relative, nothing in this spec can    *)
+(* depend on where the clock stands: the property is stated, and checked,  *)
+(* for every absolute hour Base >= 0 of the first observation at once --   *)
+(* the epoch (hour 0), hour numbers below, at and above the retention      *)
+(* limit, present-day numbers.  (The only trace of the absolute position   *)
+(* is `phase`, the hour modulo DayLen, needed for the daily rendering; Init *)
+(* lets it range over every residue.)  An implementation that computes     *)
+(* with absolute hour numbers has to get the same answers for every Base;  *)
+(* the harness therefore makes Base a seeded dimension of every leg        *)
+(* (0, 1, limit-1, limit, limit+1, 2*limit, ~470 000).                     *)
+(*                                                                         *)
 (* "The hour that was current when it was counted" is read as the hour     *)
 (* the module had observed when it counted the query (age 0): between a    *)
 (* clock advance and the next poll of the flusher (<= 1 s) the module      *)
